@@ -1,6 +1,7 @@
 package jsonapi
 
 import (
+	"bytes"
 	"encoding/json"
 	"sort"
 	"time"
@@ -411,55 +412,21 @@ func checkTime(op string, rval, cval time.Time) bool {
 }
 
 func checkBytes(op string, rval, cval []byte) bool {
+	c := bytes.Compare(rval, cval)
+
 	switch op {
 	case "=":
-		for i := 0; i < len(rval) && i < len(cval); i++ {
-			if rval[i] != cval[i] {
-				return false
-			}
-		}
-
-		return len(rval) == len(cval)
+		return c == 0
 	case "!=":
-		for i := 0; i < len(rval) && i < len(cval); i++ {
-			if rval[i] != cval[i] {
-				return true
-			}
-		}
-
-		return len(rval) != len(cval)
+		return c != 0
 	case "<":
-		for i := 0; i < len(rval) && i < len(cval); i++ {
-			if rval[i] < cval[i] {
-				return true
-			}
-		}
-
-		return len(rval) < len(cval)
+		return c < 0
 	case "<=":
-		for i := 0; i < len(rval) && i < len(cval); i++ {
-			if rval[i] > cval[i] {
-				return false
-			}
-		}
-
-		return len(rval) <= len(cval)
+		return c <= 0
 	case ">":
-		for i := 0; i < len(rval) && i < len(cval); i++ {
-			if rval[i] > cval[i] {
-				return true
-			}
-		}
-
-		return len(rval) > len(cval)
+		return c > 0
 	case ">=":
-		for i := 0; i < len(rval) && i < len(cval); i++ {
-			if rval[i] < cval[i] {
-				return false
-			}
-		}
-
-		return len(rval) >= len(cval)
+		return c >= 0
 	default:
 		return false
 	}
